@@ -18,7 +18,8 @@ HERE = os.path.dirname(os.path.abspath(__file__))
 sys.path.insert(0, HERE)
 import asm2lean_salsa as A  # noqa: E402
 
-TARGET = "SodiumModel.Properties.C03Asm"
+TARGETS = ["SodiumModel.Properties.C03Asm", "SodiumModel.Properties.C03Asm2"]   # C03Asm2: theorem (a), the prologue
+TARGET = " + ".join(TARGETS)
 REL_S = os.path.join("crypto_stream", "salsa20", "xmm6", "salsa20_xmm6-asm.S")
 
 
@@ -54,9 +55,9 @@ def tie_b(lean_dir, repo_src, timeout=1800):
         return True, "OK: Generated/SalsaXmm6Asm.lean is the translation of the current %s (unchanged); %s was built by this run against it; %.1fs" % (REL_S, TARGET, time.time() - t0)
 
     def build():
-        return subprocess.run(["lake", "build", TARGET], cwd=lean_dir, capture_output=True, text=True, timeout=timeout)
+        return subprocess.run(["lake", "build"] + TARGETS, cwd=lean_dir, capture_output=True, text=True, timeout=timeout)
     p = _swap_and(lean_dir, new, build)
-    subprocess.run(["lake", "build", TARGET], cwd=lean_dir, capture_output=True, text=True, timeout=timeout)    # back to the committed state
+    subprocess.run(["lake", "build"] + TARGETS, cwd=lean_dir, capture_output=True, text=True, timeout=timeout)    # back to the committed state
     ndiff = sum(1 for a, b in zip(new.split("\n"), cur.split("\n")) if a != b) + abs(new.count("\n") - cur.count("\n"))
     if p.returncode == 0:
         return True, "OK: the .S text changed (%d generated lines differ) and %s re-checks against the regenerated text; %.1fs" % (ndiff, TARGET, time.time() - t0)
